@@ -51,6 +51,31 @@ def run (sinkFailAt : Option Nat) : Nat → St → List Out
   | 0, _ => []
   | n + 1, s => let (o, s') := trySome sinkFailAt s; o :: run sinkFailAt n s'
 
+/-! ## jsonld/src/parser/source.rs `JsonLdQuadSource`
+
+```
+Quads(quads) => if let Some(quad) = quads.next() { f(quad).map(|()| true).map_err(SinkError) } else { Ok(false) }
+Err(opt)     => if let Some(err) = opt.take() { Err(SourceError(err)) } else { Ok(false) }
+```
+The parser has finished before the source exists: either all quads (handed out one per call; a callback
+failure consumes its quad) or one error, reported once. -/
+inductive JsonSrc where
+  /-- `left` quads still in the iterator, `delivered` handed to the callback so far -/
+  | quads (left delivered : Nat)
+  /-- `pending`: the error has not been taken yet -/
+  | err (pending : Bool)
+  deriving Repr, DecidableEq
+
+def jsonTry (sinkFailAt : Option Nat) : JsonSrc → Out × JsonSrc
+  | .quads 0 d => (.okFalse, .quads 0 d)
+  | .quads (n + 1) d => (if sinkFailAt = some d then .sinkErr else .okTrue, .quads n (d + 1))
+  | .err true => (.sourceErr, .err false)
+  | .err false => (.okFalse, .err false)
+
+def jsonRun (sinkFailAt : Option Nat) : Nat → JsonSrc → List Out
+  | 0, _ => []
+  | n + 1, s => let (o, s') := jsonTry sinkFailAt s; o :: jsonRun sinkFailAt n s'
+
 def Out.letter : Out → Char
   | .okTrue => 'T' | .okFalse => 'F' | .sourceErr => 'S' | .sinkErr => 'K' | .panic => 'P'
 
